@@ -1012,7 +1012,7 @@ Proof.
   intros H. split; [apply new_Inv|]. split; [exact H | apply Sub_refl].
 Qed.
 
-(* ------------------------------------------------------------------ EndianSlice = EndianReader, except `empty` *)
+(* ------------------------------------------------------------------ EndianSlice = EndianReader *)
 Definition abs_val (v : oval cur) : oval srd :=
   match v with
   | VUnit => VUnit | VNum n => VNum n | VInt z => VInt z | VBool b => VBool b
@@ -1071,9 +1071,9 @@ Proof.
   symmetry. apply firstn_view. lia.
 Qed.
 
-Lemma sl_read_un_eq dbg dang be c w (f : N -> oval srd) (g : N -> oval cur) :
+Lemma sl_read_un_eq dbg be c w (f : N -> oval srd) (g : N -> oval cur) :
   Inv c -> (forall v, f v = abs_val (g v)) ->
-  mmap f (g_read_un (sl_req dbg dang) w be) (abs c) = abs_out (spec_read_un be c w g).
+  mmap f (g_read_un (sl_req dbg) w be) (abs c) = abs_out (spec_read_un be c w g).
 Proof.
   intros HI Hf. unfold mmap, g_read_un, mbind, mret, spec_read_un, abs_out.
   cbn [q_read_slice sl_req]. unfold mprim. rewrite sl_read_slice_abs by exact HI.
@@ -1081,9 +1081,9 @@ Proof.
   now rewrite Hf.
 Qed.
 
-Lemma sl_read_in_eq dbg dang be c w :
+Lemma sl_read_in_eq dbg be c w :
   Inv c ->
-  mmap VInt (g_read_in (sl_req dbg dang) w be) (abs c) =
+  mmap VInt (g_read_in (sl_req dbg) w be) (abs c) =
   abs_out (spec_read_un be c w (fun v => VInt (to_signed (8 * N.of_nat w) v))).
 Proof.
   intros HI. unfold mmap, g_read_in, g_read_un, mbind, mret, spec_read_un, abs_out.
@@ -1097,9 +1097,9 @@ Proof.
   intros H. unfold abs_out. cbn [fst snd]. f_equal. destruct r; cbn; try reflexivity. now rewrite H.
 Qed.
 
-Lemma sl_read_cstr_eq dbg dang c :
+Lemma sl_read_cstr_eq dbg c :
   Inv c ->
-  mmap VRd (g_read_cstr (sl_req dbg dang)) (abs c) =
+  mmap VRd (g_read_cstr (sl_req dbg)) (abs c) =
   abs_out (spec_step dbg false c c CReadCstr).
 Proof.
   intros HI. unfold mmap, g_read_cstr, mbind, mret, mget, abs_out.
@@ -1114,11 +1114,11 @@ Proof.
   rewrite adv_adv by lia. reflexivity.
 Qed.
 
-Lemma kinds_agree_lemma dbg be dang root c op :
-  Inv c -> Inv root -> (op = CEmpty -> dang = ptr c) ->
-  sstep dbg be dang (abs root) (abs c) op = abs_out (step dbg be root c op).
+Lemma kinds_agree_lemma dbg be root c op :
+  Inv c -> Inv root ->
+  sstep dbg be (abs root) (abs c) op = abs_out (step dbg be root c op).
 Proof.
-  intros HI HIr Hd. rewrite step_spec. unfold sstep, gstep, sl_impl, default_impl.
+  intros HI HIr. rewrite step_spec. unfold sstep, gstep, sl_impl, default_impl.
   cbn [i_req i_read_address i_read_offset i_read_sized_offset].
   destruct op; cbn [spec_step].
   - unfold mmap, mbind, mret, abs_out. cbn [q_read_slice sl_req]. unfold mprim.
@@ -1132,9 +1132,9 @@ Proof.
     rewrite sl_split_abs by exact HI. destruct (len c <? n); reflexivity.
   - unfold mmap, mbind, mret, abs_out. cbn [q_truncate sl_req]. unfold mprim.
     rewrite sl_truncate_abs by exact HI. destruct (len c <? n); reflexivity.
-  - (* empty: agrees exactly when the dangling address happens to be the reader's position *)
+  - (* empty: `&self.slice[..0]` keeps the address, as SubRange::truncate(0) keeps ptr *)
     unfold mmap, mbind, mret, abs_out. cbn [q_empty sl_req]. unfold mprim, sl_empty. cbn [fst snd rmap bind].
-    rewrite (Hd eq_refl). reflexivity.
+    reflexivity.
   - cbn [q_find sl_req]. unfold sl_find. cbn [abs swin]. change (mkS (ptr c) (bytes c)) with (abs c).
     destruct (position b (bytes c)); reflexivity.
   - cbn [q_len sl_req]. rewrite slen_abs by exact HI. reflexivity.
@@ -1149,7 +1149,7 @@ Proof.
   - reflexivity.
   - cbn [q_to_string sl_req]. unfold sl_to_string. cbn [abs swin]. change (mkS (ptr c) (bytes c)) with (abs c).
     destruct (utf8_valid (bytes c)); reflexivity.
-  - rewrite (sl_read_cstr_eq dbg dang c HI). reflexivity.
+  - rewrite (sl_read_cstr_eq dbg c HI). reflexivity.
   - unfold g_read_address.
     destruct (size =? 1); [now apply sl_read_un_eq|]. destruct (size =? 2); [now apply sl_read_un_eq|].
     destruct (size =? 4); [now apply sl_read_un_eq|]. destruct (size =? 8); [now apply sl_read_un_eq|]. reflexivity.
@@ -1160,39 +1160,28 @@ Proof.
     destruct (size =? 4); [now apply sl_read_un_eq|]. destruct (size =? 8); [now apply sl_read_un_eq|]. reflexivity.
 Qed.
 
-Lemma srun_cons dbg be dang root s op ops :
-  srun dbg be dang root s (op :: ops) =
-  (fst (srun dbg be dang root (fst (sstep dbg be dang root s op)) ops),
-   snd (sstep dbg be dang root s op) :: snd (srun dbg be dang root (fst (sstep dbg be dang root s op)) ops)).
+Lemma srun_cons dbg be root s op ops :
+  srun dbg be root s (op :: ops) =
+  (fst (srun dbg be root (fst (sstep dbg be root s op)) ops),
+   snd (sstep dbg be root s op) :: snd (srun dbg be root (fst (sstep dbg be root s op)) ops)).
 Proof.
   unfold srun, sstep. cbn [grun].
-  destruct (gstep (sl_impl dbg dang) be root s op) as [c1 o]. cbn [fst snd].
-  destruct (grun (sl_impl dbg dang) be root c1 ops) as [c2 os]. reflexivity.
+  destruct (gstep (sl_impl dbg) be root s op) as [c1 o]. cbn [fst snd].
+  destruct (grun (sl_impl dbg) be root c1 ops) as [c2 os]. reflexivity.
 Qed.
 
-Lemma kinds_agree_histories_lemma dbg be dang root ops : forall c,
-  Inv c -> Inv root -> Forall (fun op => op <> CEmpty) ops ->
-  srun dbg be dang (abs root) (abs c) ops =
+Lemma kinds_agree_histories_lemma dbg be root ops : forall c,
+  Inv c -> Inv root ->
+  srun dbg be (abs root) (abs c) ops =
   (abs (fst (run dbg be root c ops)), map (rmap abs_val) (snd (run dbg be root c ops))).
 Proof.
-  induction ops as [|op ops IH]; intros c HI HIr HF.
+  induction ops as [|op ops IH]; intros c HI HIr.
   - reflexivity.
-  - inversion HF as [|x xs Hop HF']; subst.
-    rewrite srun_cons, run_cons.
-    rewrite (kinds_agree_lemma dbg be dang root c op HI HIr) by (intros E; now apply Hop in E).
+  - rewrite srun_cons, run_cons.
+    rewrite (kinds_agree_lemma dbg be root c op HI HIr).
     unfold abs_out. cbn [fst snd].
-    rewrite IH; [reflexivity | | exact HIr | exact HF'].
+    rewrite IH; [reflexivity | | exact HIr].
     now apply inv_preserved_lemma.
-Qed.
-
-Lemma kinds_agree_refuted_lemma :
-  exists dbg be dang root c ops,
-    Inv c /\ Inv root /\ Sub root c /\
-    snd (srun dbg be dang (abs root) (abs c) ops) <> map (rmap abs_val) (snd (run dbg be root c ops)).
-Proof.
-  exists true, false, 1, (new [x01; x02] 65536), (new [x01; x02] 65536), [CEmpty; COffsetFromRoot].
-  split; [apply new_Inv|]. split; [apply new_Inv|]. split; [apply Sub_refl|].
-  intros H. vm_compute in H. discriminate H.
 Qed.
 
 (* ------------------------------------------------------------------ find *)
